@@ -34,7 +34,7 @@ func init() {
 	core.Register(&core.Rule{
 		ID:    "R05.5",
 		Title: "ServeMux patterns cover the resource subtree",
-		Text: "Among the patterns AddToMux registers per root resource one ends in the constant \"/\" (a ServeMux pattern without trailing slash matches one exact path, so entity and sub-resource requests would never reach the handler).",
+		Text:  "Among the patterns AddToMux registers per root resource one ends in the constant \"/\" (a ServeMux pattern without trailing slash matches one exact path, so entity and sub-resource requests would never reach the handler).",
 		Props: []string{"C05"},
 		Floor: map[string]int{"v2": 1, "root": 1},
 		Run:   runR055,
